@@ -36,6 +36,7 @@ fn main() {
         "ty-probe" => ty::probe(&args),
         "f32-sweep" => nm::f32_sweep(&args),
         "dom-replay" => dom::replay(&args),
+        "big" => dom::big(&args),
         "sd-replay" => sd::replay(&args),
         "sk-record" => sk::record(&args),
         "nest" => nest(&args),
